@@ -5,12 +5,12 @@
    YCoCg is a linear bijection; the sRGB curves have the documented piecewise form, are monotone, fix 0 (1 up to 1e-7),
    map [0,1] into [0,1] (decode: 1 + 1e-6), keep alpha and invert each other within 1e-5 on [0,1]; saturation keeps grey
    up to the rounding of the weights; luminosity uses the documented weights.
-   Refuted = known findings: explicit gamma other than 2.4, luminosity of grey.  HSV (rgbColor has a switch on a converted
+   Refuted = known findings: explicit gamma other than 2.4, luminosity of grey, the lowp vec3 approximation below the threshold (hand model).  HSV (rgbColor has a switch on a converted
    float, outside the tracer's fragment) is covered by the oracle only. *)
 Require Import ZArith List Bool Reals Lra.
 Import ListNotations.
 From GLMV Require Import SemR SemZ Expr.
-From W Require Gen_C19 P_C19_int P_C19_real.
+From W Require Gen_C19 P_C19_int P_C19_real P_C19_lowp.
 Import Gen_C19.
 
 Section Int.
@@ -57,7 +57,13 @@ Theorem C19_saturation4_alpha : forall env, nth 3 (map (evalR env) (outs t_satur
 Theorem C19_luminosity_formula : forall env, map (evalR env) (outs t_luminosity_3) = [env F32 0%Z 0%Z * (11072963 / 33554432) + env F32 0%Z 1%Z * (9898557 / 16777216) + env F32 0%Z 2%Z * (7381975 / 67108864)]. Proof. exact luminosity_formula. Qed.
 Theorem C19_luminosity_grey_refuted : exists env, env F32 0%Z 0%Z = 1 /\ env F32 0%Z 1%Z = 1 /\ env F32 0%Z 2%Z = 1 /\ nth 0 (map (evalR env) (outs t_luminosity_3)) 0 > 1 + 1 / 40. Proof. exact luminosity_grey_refuted. Qed.
 
+(* the lowp vec3 specialisation of convertLinearToSRGB (hand model P_C19_lowp.lowp_l2s, tied to the compiled function by the oracle): outside [0,1] and not monotone
+   below the threshold -- a recorded finding *)
+Theorem C19_lowp_range_refuted : exists x, (0 <= x <= 1 /\ P_C19_lowp.lowp_l2s x < 0)%R. Proof. exact P_C19_lowp.lowp_range_refuted. Qed.
+Theorem C19_lowp_monotone_refuted : exists x y, (0 <= x < y /\ y <= 1 /\ P_C19_lowp.lowp_l2s y < P_C19_lowp.lowp_l2s x)%R. Proof. exact P_C19_lowp.lowp_monotone_refuted. Qed.
 Print Assumptions C19_YCoCgR_lossless_every_int32_triple_with_wraparound.
+Print Assumptions C19_lowp_range_refuted.
+Print Assumptions C19_lowp_monotone_refuted.
 Print Assumptions C19_YCoCgR_lossless_every_integer_triple.
 Print Assumptions C19_S2L_inverts_L2S.
 Print Assumptions C19_L2S_monotone.
